@@ -474,3 +474,54 @@ func (p *Program) reachableFromAPI() map[*types.Func]bool {
 	}
 	return p.reach
 }
+
+// allDefsAre: every assignment to the local variable named by x (anywhere in its function) assigns an expression
+// accepted by ok; a declaration without a value (zero value) is allowed. Also true when x itself is accepted.
+func (p *Program) allDefsAre(x ast.Expr, ok func(ast.Expr) bool) bool {
+	x = ast.Unparen(x)
+	if ok(x) {
+		return true
+	}
+	o := objOf(p.Info, x)
+	v, isVar := o.(*types.Var)
+	if !isVar || v.IsField() || (v.Pkg() != nil && v.Parent() == v.Pkg().Scope()) {
+		return false
+	}
+	fd := p.FuncAt(v.Pos())
+	if fd == nil || paramIndex(p.Info, fd, v) >= 0 {
+		return false
+	}
+	n, good := 0, true
+	ast.Inspect(fd.Body, func(nd ast.Node) bool {
+		switch s := nd.(type) {
+		case *ast.AssignStmt:
+			for i, l := range s.Lhs {
+				if objOf(p.Info, l) != o {
+					continue
+				}
+				if len(s.Lhs) != len(s.Rhs) || !ok(ast.Unparen(s.Rhs[i])) {
+					good = false
+				}
+				n++
+			}
+		case *ast.ValueSpec:
+			for i, nm := range s.Names {
+				if p.Info.Defs[nm] != o {
+					continue
+				}
+				if i < len(s.Values) {
+					if !ok(ast.Unparen(s.Values[i])) {
+						good = false
+					}
+					n++
+				}
+			}
+		case *ast.UnaryExpr:
+			if s.Op == token.AND && objOf(p.Info, s.X) == o {
+				good = false
+			}
+		}
+		return true
+	})
+	return good && n > 0
+}
